@@ -169,7 +169,9 @@ def run(ctx):
             elif o == 2:
                 X = X.Inv()
             else:
-                X = X.Retr(alg[j]) if stepi % 2 else X + alg[j]
+                # increments of every size: O(1) as well as the tiny ones of an optimiser close to convergence
+                a = pp.LieTensor(alg[j].tensor() * rng.choice([1.0, 1.0, 1e-2, 3e-4, 3e-5, 1e-5, 1e-7, 1e-10, 0.0]), ltype=alg.ltype)
+                X = X.Retr(a) if stepi % 2 else X + a
             q = X.rotation().tensor()
             dev = abs(float(q.norm()) - 1.0)
             worst = max(worst, dev)
